@@ -67,6 +67,10 @@ def run(ctx):
                     ok = trig is not None and any(trig == T.hoist(a) or T.assume(trig, set(cs[:-1])) == T.assume(a, set(cs[:-1])) for a in allowed)
                     ob.require(ok, 'PrvKeyNode.ckd refuses (%s) under a condition that BIP32 does not declare invalid' % leaf[1], fckd.where,
                                expected='only IL >= n or k_i == 0', found=T.show(cs[-1], maxdepth=5) if cs else 'unconditional')
+                feas = [cs for cs, leaf in nl if not contradictory(known_at(f, cs))]
+                ob.require(len(feas) >= 1, 'no returning exit of PrvKeyNode.ckd is feasible: every path that returns a child '
+                           'assumes a condition the validating calls on it exclude', fckd.where,
+                           found=[[T.show(x, maxdepth=4) for x in cs] for cs, _ in nl][:3])
             with ctx.obligation('C01.BRANCH', 'PrvKeyNode.ckd', cfg, fckd.where) as ob:
                 for lo, hi, hardened in _cells_index():
                     facts = Facts().add(T.not_(T.lt(i, T.const(lo)))).add(T.lt(i, T.const(hi + 1)))
